@@ -42,13 +42,13 @@ impl Rng {
 struct Job {
     variant: &'static str,
     rule: &'static str,
-    input: &'static str,
+    input: String,
     entry: Entry,
     ctx: Ctx,
 }
 
 fn run(j: &Job) -> (String, Ctx) {
-    dispatch(j.variant, j.rule, j.input, j.entry, j.ctx).expect("known job")
+    dispatch(j.variant, j.rule, &j.input, j.entry, j.ctx).expect("known job")
 }
 
 fn main() {
@@ -65,14 +65,26 @@ fn main() {
         if mode == "ws" && !(input.contains("    ") && !["ws_pos", "ws_mix"].contains(&v.grammar)) {
             continue;
         }
+        // "lr": only grammars with @leftrec rules (their seed-and-grow loop rewrites cache entries), all threads at once
+        if (mode == "lr" || mode == "pool") && !["calc", "calc_indirect"].contains(&v.grammar) {
+            continue;
+        }
         // parse_with_trace prints a lot; keep it to a minority of the jobs
-        let entry = match if mode == "ws" { 7 } else { rng.next() % 8 } {
+        let entry = match if mode == "ws" || mode == "lr" || mode == "pool" { 7 } else { rng.next() % 8 } {
             0 => Entry::Trace,
             1 | 2 => Entry::Noop,
             3 => Entry::Sim,
             _ => Entry::Parse,
         };
-        jobs.push(Job { variant: v.name, rule: v.exported[0], input, entry, ctx: Ctx { retval: (rng.next() % 50) as u32, a_count: (rng.next() % 6) as u32, calls: 0 } });
+        jobs.push(Job { variant: v.name, rule: v.exported[0], input: input.to_string(), entry, ctx: Ctx { retval: (rng.next() % 50) as u32, a_count: (rng.next() % 6) as u32, calls: 0 } });
+    }
+    if mode == "pool" {
+        // one large input on a fully memoized variant among small @leftrec jobs: resources handed from one parse to the
+        // next (tables, buffers, pools) are large when they come back while other threads are asking for theirs
+        let big = "select abc from defgh where X ".repeat(20);
+        let v = VARIANTS.iter().filter(|v| v.grammar == "kw").max_by_key(|v| v.mask).expect("kw variant");
+        let k = jobs.len() / 2;
+        jobs.insert(k, Job { variant: v.name, rule: v.exported[0], input: big, entry: Entry::Parse, ctx: Ctx::default() });
     }
     // sequential reference (the same process, before any thread exists)
     let expected: Vec<(String, Ctx)> = jobs.iter().map(run).collect();
